@@ -936,7 +936,7 @@ namespace Pistache::Async
             PV_LOCK(core_->mtx, "reject.lock");
             std::unique_lock<std::mutex> guard(core_->mtx);
             PV_YIELD("reject.locked");
-            core_->exc   = std::make_exception_ptr(exc);
+            core_->exc   = toExceptionPtr(exc);
             core_->state = State::Rejected;
             PV_YIELD("reject.stored");
             for (const auto& req : core_->requests)
@@ -952,6 +952,12 @@ namespace Pistache::Async
         Rejection clone() { return Rejection(core_); }
 
     private:
+        // an exception that is already captured (whenAll / whenAny forwarding the rejection of
+        // an input, a handler passing on what it received) is forwarded as it is, not wrapped
+        template <typename Exc>
+        static std::exception_ptr toExceptionPtr(Exc exc) { return std::make_exception_ptr(exc); }
+        static std::exception_ptr toExceptionPtr(std::exception_ptr exc) { return exc; }
+
         std::shared_ptr<Private::Core> core_;
     };
 
